@@ -144,7 +144,9 @@ func (fv *FuncVC) run() {
 				fv.errorf("%s", string(s))
 				return
 			}
-			panic(r)
+			// a construct the generator does not survive (e.g. a type go/types cannot size): the
+			// function is out of reach, reported like every other unsupported construct
+			fv.errorf("generator failure: %v", r)
 		}
 	}()
 	fv.computeEscapes()
